@@ -176,6 +176,39 @@ def check_rank_association(db, chk, rule: str) -> None:
                    found={"parsed": ast.unparse(arg) if arg is not None else None, "stored": [ast.unparse(t) for t in stores]}, accepted="parse_trace_file(self.trace_files[r], ...) -> self.traces[r], self.meta_data[r]")
 
 
+def id_truthiness_sites(db, modules=None):
+    """(sites, number of lookups scanned): symbol-id lookups (`<sym_index / id map>.get(..)`, `<...>[..]`) standing in a boolean position -
+    `lookup or default`, `if lookup`, `not lookup`, a comprehension filter - where the valid id 0 counts as 'missing'"""
+    def is_id_lookup(e):
+        if isinstance(e, ast.Call) and isinstance(e.func, ast.Attribute) and e.func.attr == "get":
+            r = ast.unparse(e.func.value)
+            return any(k_ in r for k_ in ("sym_index", "sym_id_map", "get_sym_id_map", "s_map"))
+        if isinstance(e, ast.Subscript):
+            r = ast.unparse(e.value)
+            return any(k_ in r for k_ in ("sym_index", "sym_id_map", "get_sym_id_map"))
+        return False
+    truthy, nlook = [], 0
+    for mod in db.modules.values():
+        if modules is not None and mod.name not in modules:
+            continue
+        for n in ast.walk(mod.tree):
+            if is_id_lookup(n):
+                nlook += 1
+            ops = []
+            if isinstance(n, ast.BoolOp):
+                ops = n.values
+            elif isinstance(n, ast.UnaryOp) and isinstance(n.op, ast.Not):
+                ops = [n.operand]
+            elif isinstance(n, (ast.If, ast.While, ast.IfExp)):
+                ops = [n.test]
+            elif isinstance(n, ast.comprehension):
+                ops = list(n.ifs)
+            for o in ops:
+                if is_id_lookup(o):
+                    truthy.append(f"{mod.loc(o)}: {' '.join(ast.unparse(n).split())[:90]}")
+    return truthy, nlook
+
+
 def run(db, chk) -> None:
     st = db.mod(ST)
     # ---------------------------------------------------------------- R1 who may write
@@ -273,32 +306,7 @@ def run(db, chk) -> None:
         chk.ob("C11.R4-id-opacity", f"{w}: {hit} over a name/cat column", bool(reason) and decoded, loc, found=src, accepted="only in the frozen table, and only while the column is still decoded there: " + (reason or "-"),
                why="ordering or arithmetic on encoded ids makes the result depend on the arbitrary id numbering (hash seed, parse order)")
     chk.ob("C11.R4-id-opacity", "scan covered every function of hta", len(sinks) >= 2, "hta", found=len(sinks), accepted=">= 2 candidate sites (both frozen)", nontrivial=False)
-    # truthiness of an id: `lookup(...) or default`, `if lookup(...)`, `not lookup(...)` treat id 0 as "missing"
-    def is_id_lookup(e):
-        if isinstance(e, ast.Call) and isinstance(e.func, ast.Attribute) and e.func.attr == "get":
-            r = ast.unparse(e.func.value)
-            return any(k_ in r for k_ in ("sym_index", "sym_id_map", "get_sym_id_map", "s_map"))
-        if isinstance(e, ast.Subscript):
-            r = ast.unparse(e.value)
-            return any(k_ in r for k_ in ("sym_index", "sym_id_map", "get_sym_id_map"))
-        return False
-    truthy, nlook = [], 0
-    for mod in db.modules.values():
-        for n in ast.walk(mod.tree):
-            if is_id_lookup(n):
-                nlook += 1
-            ops = []
-            if isinstance(n, ast.BoolOp):
-                ops = n.values
-            elif isinstance(n, ast.UnaryOp) and isinstance(n.op, ast.Not):
-                ops = [n.operand]
-            elif isinstance(n, (ast.If, ast.While, ast.IfExp)):
-                ops = [n.test]
-            elif isinstance(n, ast.comprehension):
-                ops = list(n.ifs)
-            for o in ops:
-                if is_id_lookup(o):
-                    truthy.append(f"{mod.loc(o)}: {' '.join(ast.unparse(n).split())[:90]}")
+    truthy, nlook = id_truthiness_sites(db)
     chk.ob("C11.R4-id-opacity", f"no symbol-id lookup is used for its truth value ({nlook} lookups scanned)", not truthy and nlook >= 20, "hta", found=truthy or f"{nlook} lookups, none in a boolean position",
            accepted="ids compared with `is None` / a sentinel, never tested for truthiness", why="`sym_index.get(name) or NULL` replaces the valid id 0 by the sentinel: whichever symbol happens to be numbered 0 disappears from the query")
     _derived_views(db, chk)
